@@ -194,8 +194,10 @@ def observe(x, r):
     return o, err
 
 
-def validate(obs, chunk=3000, threads=6):
+def validate(obs, chunk=None, threads=None):
     """b3.validate, also returning the diagnostic lines CodecObs prints."""
+    threads = threads or max(1, min(8, int(os.environ.get("VERIF_JOBS", vlib.NPROC))))
+    chunk = chunk or max(400, min(3000, -(-len(obs) // threads)))
     cfg = b3.cfg_text({"ObsFile": '"obs.ndjson"'}, invariants=["Conforms"])
     parts = [(s, obs[s:s + chunk]) for s in range(0, len(obs), chunk)]
 
